@@ -554,6 +554,17 @@ class Goebner:
                         relations[second][2] - (both * linear2[both]),
                     )
 
+            # terms that only one of the relations has can not stay in the middle either
+            for index, linear in ((first, linear1), (second, linear2)):
+                for single in set(linear.keys()) - common:
+                    if single.free_symbols.intersection(self._sym2agg.keys()):
+                        return None  # nocoverage
+                    relations[index] = (
+                        relations[index][0] - (single * linear[single]),
+                        relations[index][1],
+                        relations[index][2] - (single * linear[single]),
+                    )
+
             lhs = relations[first][0] * factor1
             opl = relations[first][1] if factor1 > 0 else rhs2lhs_comparison(relations[first][1])
             mid = relations[first][2] * factor1
